@@ -278,6 +278,7 @@ class Job:
         return getattr(mod, self.maker)(**self.cfg)
 
 
+WALL_BUDGET = float(os.environ.get("VERIF_WALL_BUDGET", "1e9"))   # seconds of wall time per check before the exploration is cut (set per tier in harness.main)
 BUDGET = int(os.environ.get("VERIF_TASK_BUDGET", "400"))     # paths per task of a split job before re-queueing
 
 
@@ -377,6 +378,17 @@ def run_jobs(jobs, procs=NPROC, progress=False):
             pending = still
             if not progressed:
                 time.sleep(0.05)
+            if pending and time.time() - t0 > WALL_BUDGET:
+                # exploration budget of the tier exhausted (only ever seen on modified code whose path count explodes):
+                # stop, keep everything found so far, and say which jobs were cut short -- never a silent pass
+                cut = sorted({j.label for j, _ in pending})
+                pool.terminate()
+                for label in cut:
+                    acc = results.setdefault(label, Acc())
+                    acc.inc("inconclusive")
+                    acc.inc("obligations")
+                    acc.inconclusive.append(dict(ob="<exploration budget exhausted>", info=f"job {label} stopped after {WALL_BUDGET:.0f} s wall"))
+                break
     for label, acc in results.items():
         acc.c["cpu_wall_s"] = round(walls.get(label, 0.0), 2)
     return results, time.time() - t0
